@@ -210,7 +210,7 @@ func runShard(id, tier string, seed int64, shard, nshards int, cfg propCfg, work
 		os.MkdirAll(tmpd, 0755)
 		ev := env("HOME="+home, "TMPDIR="+tmpd, "VERIF_ROOT="+root, "GOTRACEBACK=all")
 		if cfg.race {
-			ev = append(ev, "GORACE=halt_on_error=0 log_path="+base+".race history_size=3")
+			ev = append(ev, "GORACE=halt_on_error=0 exitcode=0 log_path="+base+".race history_size=3")
 		}
 		cmd.Env = ev
 		errf, _ := os.Create(base + ".stderr")
@@ -421,6 +421,8 @@ func parseRaces(outdir string, racePkg string) (reps []raceRep, harnessOnly int)
 			var tops []string
 			inPkg := false
 			for _, s := range secs[1:] {
+				// who made the access: the first frame that is neither runtime nor
+				// standard library. qiloop code -> its function; harness code -> "(harness)".
 				top := ""
 				for _, l := range strings.Split(s, "\n") {
 					if l == "" {
@@ -434,15 +436,19 @@ func parseRaces(outdir string, racePkg string) (reps []raceRep, harnessOnly int)
 						if strings.HasPrefix(fn, "github.com/lugu/qiloop/") {
 							if top == "" {
 								top = strings.TrimPrefix(fn, "github.com/lugu/qiloop/")
+								if racePkg == "" || strings.Contains(fn, racePkg) {
+									inPkg = true
+								}
 							}
-							if racePkg == "" || strings.Contains(fn, racePkg) {
-								inPkg = true
+						} else if strings.HasPrefix(fn, "verif/") || strings.HasPrefix(fn, "main.") {
+							if top == "" {
+								top = "(harness)"
 							}
 						}
 					}
 				}
 				if top == "" {
-					top = "(non-qiloop)"
+					top = "(harness)"
 				}
 				tops = append(tops, top)
 				if len(tops) == 2 {
@@ -451,10 +457,10 @@ func parseRaces(outdir string, racePkg string) (reps []raceRep, harnessOnly int)
 			}
 			sort.Strings(tops)
 			key := "race=" + strings.Join(tops, "|")
-			allNon := true
+			allNon := false
 			for _, t := range tops {
-				if t != "(non-qiloop)" {
-					allNon = false
+				if t == "(harness)" {
+					allNon = true // an access made by harness code: a harness bug, not a finding
 				}
 			}
 			if allNon {
@@ -632,7 +638,7 @@ func check(id, tier string, only int, onlyStream string, writeEvidence bool) int
 		_ = honly
 		for _, r := range races {
 			if r.key == "harness-only" {
-				a.broken = append(a.broken, "data race with no qiloop frame (harness bug):\n"+r.text[:min(len(r.text), 1500)])
+				a.broken = append(a.broken, "data race involving an access made by harness code (harness bug):\n"+r.text[:min(len(r.text), 1500)])
 				continue
 			}
 			raceKeys = append(raceKeys, r.key)
@@ -725,7 +731,11 @@ func check(id, tier string, only int, onlyStream string, writeEvidence bool) int
 		return 1
 	}
 	if len(a.broken) > 0 {
-		for _, b := range a.broken {
+		for n, b := range a.broken {
+			if n >= 3 {
+				fmt.Printf("BROKEN: ... and %d more\n", len(a.broken)-3)
+				break
+			}
 			fmt.Printf("BROKEN: %s\n", b)
 		}
 		return 2
